@@ -88,7 +88,7 @@ fn verif_native_vector_identity_witness() {
     std::panic::set_hook(Box::new(|_| {}));
     let mut n = 0;
     let mut bad: Vec<String> = Vec::new();
-    let cases: [(&str, &str); 22] = [
+    let cases: [(&str, &str); 28] = [
         // aliases through variables, arguments, elements of vectors and lists
         ("(define v (vector 1 2 3)) (define w v) (vector-set! w 0 9) (vector-ref v 0)", "value 9"),
         ("(define v (vector 1 2 3)) (define (poke x) (vector-set! x 1 8)) (poke v) (vector-ref v 1)", "value 8"),
@@ -108,6 +108,13 @@ fn verif_native_vector_identity_witness() {
         ("(define a (vector 1 2)) (define b (vector 1 2)) (vector-set! a 0 9) (vector-ref b 0)", "value 1"),
         ("(define a (make-vector 2 0)) (define b (make-vector 2 0)) (vector-set! a 0 9) (vector-ref b 0)", "value 0"),
         ("(define a (vector 1 2)) (define b (vector 1 2)) (eqv? a b)", "value #f"),
+        // ... also EMPTY ones (they own no element buffer), however they were made; an empty vector is still itself
+        ("(eqv? (vector) (vector))", "value #f"),
+        ("(define e1 (vector)) (define e2 (vector)) (eqv? e1 e2)", "value #f"),
+        ("(define e1 (vector)) (eqv? e1 (make-vector 0 7))", "value #f"),
+        ("(define e1 (vector)) (eqv? e1 '#())", "value #f"),
+        ("(define e1 (vector)) (define w e1) (eqv? e1 w)", "value #t"),
+        ("(define e1 (vector)) (define g (vector e1)) (eqv? (vector-ref g 0) e1)", "value #t"),
         // literal vectors reject mutation, also when reached through a constructed vector
         ("(define v (make-vector 1 #(1 2))) (vector-set! (vector-ref v 0) 0 9)", "RequiresMutable"),
         ("(define v #(1 2 3)) (vector-set! v 0 9)", "RequiresMutable"),
